@@ -95,6 +95,17 @@ def programs(tier, mode):
             for d in (0, 0.25):
                 for b in A:
                     out.append(make_prog(c, [a, b], [d]))
+    # the program keeps a nested bundle in one list object and sends it
+    # several times at different logical times
+    for c in clocks:
+        for L, L2 in ((0.25, 0.5), (0, 0.25), (None, None)):
+            p = make_prog(c, [], [])
+            p['routines']['r0'] = [
+                ['yield', 0.25], ['sendbo', L, L2, 41], ['yield', 0.25],
+                ['sendbo', L, L2, 42], ['yield', 0.5],
+                ['sendbo', L, L2, 43]]
+            p['horizon'] = 5.0
+            out.append(p)
     # two routines sending at equal logical times, different clocks
     for c2 in clocks:
         for a in A[:5]:
@@ -154,7 +165,7 @@ def expected_sends(prog, mode):
         for st in stmts:
             if st[0] == 'yield':
                 k += 1
-            elif st[0] in ('send', 'sendm', 'sendb'):
+            elif st[0] in ('send', 'sendm', 'sendb', 'sendbo'):
                 sends.append(_send(st, rid, exp_t[rid][k][0], True))
                 if sends[-1]['refused']:
                     break     # the exception ends the routine
@@ -168,7 +179,8 @@ def expected_sends(prog, mode):
 
 
 def _send(st, who, t, in_routine):
-    d = {'who': who, 't': t, 'in_routine': in_routine, 'kind': st[0]}
+    d = {'who': who, 't': t, 'in_routine': in_routine,
+         'kind': 'sendb' if st[0] == 'sendbo' else st[0]}
     if st[0] == 'send':
         d.update(L=st[1], tag=st[2], refused=False)
     elif st[0] == 'sendm':
@@ -201,6 +213,9 @@ def check_rt(prog, res):
             st = e[2]
             tag = st[-1]
             raised[tag] = e[3]
+            if e[3] == 'ProgramDataAltered':
+                dis.append(('program-bundle-list-altered', 'unchanged',
+                            e[4], str(st)))
     task_instants = {e[3] for e in res['trace'] if e[0] in ('res', 'wake')}
     for e in res['trace']:
         if e[0] == 'send' and e[1] == 'main' and e[3] in sends:
@@ -333,7 +348,12 @@ def check_nrt(prog, res):
     except Exception as ex:
         dis.append(('nrt-raw-unencodable', None, repr(ex), ''))
     for e in res['trace']:
-        if e[0] == 'raises' and e[2][0] in ('send', 'sendm', 'sendb'):
+        if e[0] == 'raises' and e[3] == 'ProgramDataAltered':
+            dis.append(('program-bundle-list-altered', 'unchanged', e[4],
+                        str(e[2])))
+            continue
+        if e[0] == 'raises' and e[2][0] in ('send', 'sendm', 'sendb',
+                                           'sendbo'):
             s = bytag.get(e[2][-1])
             if s is not None and not s['refused']:
                 dis.append(('nrt-send-raises', 'accepted', e[3:], str(s)))
